@@ -255,7 +255,7 @@ func (w *World) intrinsicFor(fn *ssa.Function) intrinsicFn {
 			h = x
 		}
 	}
-	if h == nil && fn.Pkg != nil && nopPackages[fn.Pkg.Pkg.Path()] {
+	if h == nil && fn.Pkg != nil && isNopPkg(fn.Pkg.Pkg.Path()) {
 		h = nopPkgCall
 	}
 	if h == nil {
@@ -265,7 +265,7 @@ func (w *World) intrinsicFor(fn *ssa.Function) intrinsicFn {
 			if p, ok := t.(*types.Pointer); ok {
 				t = p.Elem()
 			}
-			if n, ok := t.(*types.Named); ok && n.Obj().Pkg() != nil && nopPackages[n.Obj().Pkg().Path()] {
+			if n, ok := t.(*types.Named); ok && n.Obj().Pkg() != nil && isNopPkg(n.Obj().Pkg().Path()) {
 				h = nopPkgCall
 			}
 		}
